@@ -121,6 +121,8 @@ def run(ctx: Ctx):
                     r[fld] = copy.deepcopy(r2[fld])
             lv = "definition" if "definition" in (l1, l2) else ("model" if "model" in (l1, l2) else "filter")
             defs.append(r); meta.append((f"pair: {k1} + {k2}", lv, b))
+    # fixed valid definitions: poles at the all-zero state (the constructors evaluate the model there as a type check)
+    defs.append(raw_of(M.pole_at_zero_definition())); meta.append(("valid", "none", n_base))
     res = ctx.run_impl_jobs("valid_py.py", defs, key="defs", timeout=3000)
     kinds = {}
     rows = []
